@@ -7,6 +7,15 @@ ASSUME KeyTypes \subseteq DOMAIN KeyInfo /\ CtorKeyTypes \subseteq DOMAIN KeyInf
 AllCodes == 0..255
 ASSUME HashMutCodes \subseteq Codes /\ SigMutCodes \subseteq Codes
 
+\* vacuity law of the ExactBytes dimension: for every object kind that is handed over as bytes and every form, the
+\* table holds a case on which a verifier normalising that form away (or towards it) answers differently from the
+\* specification - one that it accepts wrongly and one that it rejects wrongly
+FormCasesOf(k) == {x \in FormTable : x.kind = k}
+ASSUME \A k \in {k \in Kinds : RawBytes(k)} : LET cs == FormCasesOf(k) IN NormExposed(k, cs)
+\* (FormTable is part of Cases by construction - FormCases literally, PlainFormCases as the members of VerifyCases
+\* with h \in FormHashes and mut \in {none, norm}; the driver re-checks it on the export: every ordered pair of forms
+\* of either kind must be among the exported cases, accepted exactly on the diagonal)
+
 VARIABLE c
 Init == c \in Cases
 Next == UNCHANGED c
@@ -15,12 +24,17 @@ LawHolds == Law(c)
 
 \* `pkey`/`psig`/`phash`: what is presented after the mutation (the harness cross-checks its own reading of the
 \* mutation against these); `expect`: verdict of the verification proper; `ctor`: can a verifier be built for the
-\* presented key under `allow`; `e2e`: verdict of verification through such a verifier.
+\* presented key under `allow`; `e2e`: verdict of verification through such a verifier.  `pform`: the form the data
+\* is presented in (ExactBytes); `list` / `stage`: what loglist3.NewFromSignedJSON returns and which of its two steps
+\* refuses (ListIsJSON; for the other kinds `list` repeats `expect`).
 Export ==
   PrintT(<<"CASE", ToJson([c |-> c, expect |-> Outcome(c),
                            pkey |-> IF IsVerify(c) THEN PKeyType(c) ELSE c.key,
                            phash |-> IF IsVerify(c) THEN PHash(c) ELSE c.hash,
                            psig |-> IF IsVerify(c) THEN PSig(c) ELSE 0,
+                           pform |-> IF IsVerify(c) THEN PForm(c) ELSE "plain",
+                           list |-> IF c.kind = "LogList" THEN ListVerdict(c) ELSE Outcome(c),
+                           stage |-> IF c.kind = "LogList" THEN ListStage(c) ELSE "none",
                            ctor |-> Constructible(IF IsVerify(c) THEN PKeyType(c) ELSE c.key, c.allow),
                            e2e |-> IF IsVerify(c) THEN EndToEnd(c) ELSE Outcome(c)])>>)
 =============================================================================
